@@ -134,7 +134,23 @@ def explore(ctx, cfg, sc_dir, idx, budget):
     return T, sc, G, E, cands, rows, vio
 
 
-def coq_case(T, sc, G, E, rows):
+def decoded_ok(T, consts):
+    """Does the codec the scorer reads IP.level / CP.level with give back the text the trainer wrote?"""
+    if consts["scorer_opens_with_ruleset_encoding"]:
+        return True
+    import locale
+    enc = locale.getpreferredencoding(False)
+    for name in ("IP.level", "CP.level"):
+        b = open(os.path.join(T.omen_dir, name), "rb").read()
+        try:
+            if b.decode(enc) != b.decode(T.cfg["encoding"]):
+                return False
+        except UnicodeDecodeError:
+            return False
+    return True
+
+
+def coq_case(T, sc, G, E, rows, consts):
     sobs = []
     for r in rows:
         scv = "None" if r["scorer"] == "n/a" else "(Some %s)" % ol.coq_level(r["scorer"])
@@ -156,7 +172,8 @@ def coq_case(T, sc, G, E, rows):
             budget -= len(lst)
             levels.append("(%d%%nat, %s)" % (L, common.clist([common.cstr(s) for s in lst]) if lst else "(@nil (list N))"))
     counts = ["(%s, %d%%nat)" % (ol.coq_level(k), v) for k, v in T.levels_count.items()]
-    return "(mk_c11case %s\n %s\n %s\n %s\n %s\n %s\n %s\n %s\n %s)" % (
+    sbreaks = "guesser_linebreaks" if consts["scorer_uses_codecs_reader"] else "scorer_breaks"
+    return "(mk_c11case %s\n %s\n %s\n %s\n %s\n %s\n %s\n %s\n %s\n %s %s guesser_linebreaks %s %s)" % (
         ol.coq_tables(T.tables),
         ol.coq_lines(T.file_pairs("IP.level")), ol.coq_lines(T.file_pairs("EP.level")),
         ol.coq_lines(T.file_pairs("CP.level")),
@@ -164,17 +181,21 @@ def coq_case(T, sc, G, E, rows):
         "[" + ";\n  ".join(sobs) + "]" if sobs else "(@nil sobs)",
         "[" + ";\n  ".join(levels) + "]" if levels else "(@nil (nat * list (list N)))",
         common.clist([common.cstr(p) for p in T.valid]) if T.valid else "(@nil (list N))",
-        common.clist(counts) if counts else "(@nil (option nat * nat))")
+        common.clist(counts) if counts else "(@nil (option nat * nat))",
+        common.cbool(decoded_ok(T, consts)), sbreaks, common.cbool(sc is not None), common.cbool(G is not None))
 
 
 CODES = {1: "trainer table invariants (wf_ttabb / closedb / levels <= 10)", 2: "IP.level lines", 3: "EP.level lines",
          4: "CP.level lines", 5: "LN.level lines", 6: "a string's level (trainer / scorer / guesser model vs implementation)",
-         7: "level_strings of the model vs the MarkovCracker output of a level", 8: "omen_levels_count (pass 3)"}
+         7: "level_strings of the model vs the MarkovCracker output of a level", 8: "omen_levels_count (pass 3)",
+         9: "whether the scorer / the guesser could load the directory at all (framing, codec)"}
 
 
 def run(ctx):
-    n = ctx.scale(36, 500)
-    budget = {"cap": ctx.scale(4000, 20000), "per_level": ctx.scale(0.25, 1.0), "per_model": ctx.scale(0.9, 4.0)}
+    import extract_consts
+    consts = extract_consts.main()
+    n = ctx.scale(36, 1500)
+    budget = {"cap": ctx.scale(4000, 20000), "per_level": ctx.scale(0.25, 0.5), "per_model": ctx.scale(0.9, 1.3)}
     sc_dir = common.scratch()
     vio, samples, cases, case_cfg = [], [], [], []
     dist = {"models": 0, "unusable_lists": 0, "kinds": {}, "encodings": {}, "ngram": {}, "strings": 0,
@@ -221,7 +242,7 @@ def run(ctx):
         if len(samples) < 4 and rows:
             samples.append({"kind": cfg["kind"], "ngram": cfg["ngram"], "encoding": cfg["encoding"], "alphabet": T.alphabet,
                             "training": cfg["passwords"][:6], "rows": rows[:6]})
-        cases.append(coq_case(T, sc, G, E, rows))
+        cases.append(coq_case(T, sc, G, E, rows, consts))
         case_cfg.append(cfg)
 
     # ---- correspondence: Coq evaluates the models on the same tables / strings
@@ -230,6 +251,7 @@ def run(ctx):
     for s in range(0, len(cases), per):
         src = ["From Coq Require Import List NArith ZArith.",
                "From Pcfg Require Import OmenSpec OmenLevel OmenKeyspace OmenLevelCorr.",
+               "From PcfgGen Require Import Consts_gen.",
                "Import ListNotations.",
                "Definition cases : list c11case := [",
                ";\n".join(cases[s:s + per]), "].",
@@ -290,7 +312,7 @@ def check_one(rng, cfg, string, budget):
     return vio
 
 
-def shrink_all(ctx, vio, seconds_each=3.0, max_sigs=5):
+def shrink_all(ctx, vio, seconds_each=2.0, max_sigs=4):
     """Per signature: the hit with the smallest training list, delta-debugged, moved to the front."""
     by = {}
     for v in vio:
